@@ -83,6 +83,60 @@ func profileDaemonSelectors(r *rand.Rand, s *world.Scenario) {
 	}
 }
 
+// profileCustomKey: NodePools whose template leaves a user-defined label key open (tier In [gold, silver] / Exists / NotIn)
+// and pods of the property's class that constrain the key without pinning one value (Exists, In with both values, NotIn) or
+// pin it: the NodeClaim opened for such a pod has to come up WITH a concrete label for the key, otherwise its in-flight node
+// cannot take the pod back on the next pass.
+func profileCustomKey(r *rand.Rand, s *world.Scenario) {
+	vals := []string{"gold", "silver"}
+	for i := range s.Pools {
+		if r.Float64() < 0.8 {
+			var reqs []world.MinExpr
+			for _, e := range s.Pools[i].Reqs {
+				if e.Key != "tier" {
+					reqs = append(reqs, e)
+				}
+			}
+			e := world.MinExpr{Key: "tier", Op: pickS(r, []string{"In", "In", "Exists", "NotIn"}), Values: []string{}}
+			switch e.Op {
+			case "In":
+				e.Values = append([]string{}, vals...)
+			case "NotIn":
+				e.Values = []string{pickS(r, vals)}
+			}
+			s.Pools[i].Reqs = append(reqs, e)
+		}
+	}
+	for i := range s.Pods {
+		if r.Float64() < 0.6 {
+			p := &s.Pods[i]
+			p.Affinity, p.Spreads, p.Preferred = nil, nil, nil
+			e := world.KExpr{Key: "tier", Op: pickS(r, []string{"Exists", "Exists", "In", "In", "NotIn"}), Values: []string{}}
+			switch e.Op {
+			case "In":
+				e.Values = append([]string{}, vals...)
+				if r.Float64() < 0.3 {
+					e.Values = []string{pickS(r, vals)}
+				}
+			case "NotIn":
+				e.Values = []string{pickS(r, vals)}
+			}
+			if len(p.Required) == 0 {
+				p.Required = [][]world.KExpr{{e}}
+			} else {
+				var t []world.KExpr
+				for _, x := range p.Required[0] {
+					if x.Key != "tier" {
+						t = append(t, x)
+					}
+				}
+				p.Required[0] = append(t, e)
+			}
+			delete(p.NodeSelector, "tier")
+		}
+	}
+}
+
 func genHistory(r *rand.Rand, t core.Tier) any {
 	s := world.GenScenario(r, histOpts)
 	singleTerm(r, s)
@@ -91,6 +145,8 @@ func genHistory(r *rand.Rand, t core.Tier) any {
 		profileTainted(r, s)
 	case x < 0.4:
 		profileDaemonSelectors(r, s)
+	case x < 0.55:
+		profileCustomKey(r, s)
 	}
 	// startup taints and daemonsets are what the in-flight view has to get right: make them more frequent
 	for i := range s.Pools {
@@ -109,6 +165,7 @@ func genHistory(r *rand.Rand, t core.Tier) any {
 	if r.Float64() < 0.15 {
 		in.MarkStage = pickS(r, []string{"claim", "node", "registered", "initialized"})
 		in.MarkIdx = r.IntN(8)
+		in.MarkStale = r.Float64() < 0.5
 	}
 	return in
 }
